@@ -20,7 +20,7 @@ tvars == <<vars, tid, l>>
 Ev == Traces[tid].events
 
 ReqOf(t) == LET r == Traces[t].req IN
-  [ pkg |-> <<r.pkg[1], r.pkg[2], r.pkg[3]>>, files |-> r.files, svcs |-> r.svcs, kinds |-> r.kinds, dep |-> r.dep, items |-> r.items ]
+  [ pkg |-> <<r.pkg[1], r.pkg[2], r.pkg[3]>>, files |-> r.files, svcs |-> r.svcs, kinds |-> r.kinds, dep |-> r.dep, items |-> r.items, extra |-> r.extra ]
 ResetFor(t) == /\ req' = ReqOf(t) /\ stage' = "start" /\ opts' = None /\ package' = <<>> /\ naming' = None /\ protos' = <<>>
                /\ todo' = <<>> /\ emitted' = <<>> /\ features' = {}
 TInit == /\ tid = 1 /\ l = 1 /\ TLCSet(1, 0) /\ TLCSet(2, <<0, 0>>)
